@@ -36,7 +36,7 @@ mutual
     | .act _ => true
     | .seq es => nullAll N es
     | .alt es => nullAny N es
-    | .ualt _ _ => true
+    | .ualt _ es => nullAny N es
     | .peekFor _ => true
     | .peekNot _ => true
     | .query _ => true
@@ -74,8 +74,8 @@ def closedB (G : Grammar) (N : List String) : Bool :=
 /-- `wfF G N f e`: `e` is in Ford's set WF, by a derivation of height `≤ f`.
     The check visits the first-position sub-expressions only (the rest of a sequence is visited
     iff its head is nullable), goes through rule references, and fails on: fuel exhaustion (left
-    recursion), an undefined reference, the empty choice, a `-switch` node, and `e*`/`e+` over
-    a nullable `e`. -/
+    recursion), an undefined reference, the empty choice (ordered or `-switch`), and `e*`/`e+`
+    over a nullable `e`.  Every case of a `-switch` node is in first position. -/
 def wfF (G : Grammar) (N : List String) : Nat → Expr → Bool
   | 0, _ => false
   | _ + 1, .dot => true
@@ -96,7 +96,7 @@ def wfF (G : Grammar) (N : List String) : Nat → Expr → Bool
   | _ + 1, .alt [] => false
   | f + 1, .alt [e] => wfF G N f e
   | f + 1, .alt (e :: e' :: es) => wfF G N f e && wfF G N f (.alt (e' :: es))
-  | _ + 1, .ualt _ _ => false
+  | f + 1, .ualt _ es => !es.isEmpty && es.all (fun e => wfF G N f e)
   | f + 1, .peekFor e => wfF G N f e
   | f + 1, .peekNot e => wfF G N f e
   | f + 1, .query e => wfF G N f e
@@ -111,7 +111,7 @@ mutual
     | .inl _ e => wfF G N F e && subsB G N F e
     | .seq es => subsL G N F es
     | .alt es => subsL G N F es
-    | .ualt _ _ => false
+    | .ualt _ es => subsL G N F es
     | .peekFor e => wfF G N F e && subsB G N F e
     | .peekNot e => wfF G N F e && subsB G N F e
     | .query e => wfF G N F e && subsB G N F e
@@ -176,6 +176,7 @@ inductive Child : Expr → Expr → Prop where
   | inl {n e} : Child e (.inl n e)
   | seq {e es} : e ∈ es → Child e (.seq es)
   | alt {e es} : e ∈ es → Child e (.alt es)
+  | ualt {e ks es} : e ∈ es → Child e (.ualt ks es)
   | peekFor {e} : Child e (.peekFor e)
   | peekNot {e} : Child e (.peekNot e)
   | query {e} : Child e (.query e)
@@ -276,6 +277,62 @@ theorem Eval_le_len {G : Grammar} {ρ : String → Nat → Bool} {inp e p res ev
   | ipush_ok _ _ ih => intro hp p1 f1 e; cases e; exact ih hp _ _ rfl
   | _ => intro hp p1 f1 e; cases e <;> omega
 
+/-- Positions only move forward, and a derivation that consumes ends inside the input — without
+    assuming that it starts inside. -/
+theorem Eval_pos {G : Grammar} {ρ : String → Nat → Bool} {inp e p res evs}
+    (h : Eval G ρ inp e p res evs) :
+    ∀ p1 f1, res = .ok p1 f1 → p ≤ p1 ∧ (p < p1 → p1 ≤ inp.length) := by
+  induction h with
+  | dot_ok h => intro p1 f1 e; cases e; have := getElem?_lt_of_some h; omega
+  | chr_ok h => intro p1 f1 e; cases e; have := getElem?_lt_of_some h; omega
+  | rng_ok h _ _ => intro p1 f1 e; cases e; have := getElem?_lt_of_some h; omega
+  | str_ok h =>
+    intro p1 f1 e; cases e
+    simp only [matchesAt, Bool.and_eq_true, decide_eq_true_eq] at h
+    omega
+  | name _ _ ih => exact ih
+  | inl _ ih => exact ih
+  | seq_ok _ _ ih1 ih2 =>
+    intro p1 f1 e; cases e
+    have := ih1 _ _ rfl
+    have := ih2 _ _ rfl
+    omega
+  | alt_last _ ih => exact ih
+  | alt_ok _ ih => exact ih
+  | alt_next _ _ _ ih2 => exact ih2
+  | ualt _ _ ih => exact ih
+  | query_ok _ ih => exact ih
+  | star_step _ _ ih1 ih2 =>
+    intro p1 f1 e; cases e
+    have := ih1 _ _ rfl
+    have := ih2 _ _ rfl
+    omega
+  | plus_ok _ _ ih1 ih2 =>
+    intro p1 f1 e; cases e
+    have := ih1 _ _ rfl
+    have := ih2 _ _ rfl
+    omega
+  | push_ok _ _ ih => intro p1 f1 e; cases e; exact ih _ _ rfl
+  | ipush_ok _ _ ih => intro p1 f1 e; cases e; exact ih _ _ rfl
+  | _ => intro p1 f1 e; cases e <;> omega
+
+theorem caseIdx_le (keys : List KeySet) (c : Sym) : caseIdx keys c ≤ keys.length := by
+  unfold caseIdx
+  cases h : keys.findIdx? (fun ks => ks.has c) with
+  | none => exact Nat.le_refl _
+  | some i =>
+    have := (List.findIdx?_eq_some_iff_getElem.mp h).1
+    exact Nat.le_of_lt this
+
+/-- The case a non-empty `-switch` node selects exists. -/
+theorem ualt_case_lt (ks : List KeySet) {es : List Expr} (hne : es ≠ []) (c : Sym) :
+    caseIdx (ks.take (es.length - 1)) c < es.length := by
+  have h1 := caseIdx_le (ks.take (es.length - 1)) c
+  have h2 : (ks.take (es.length - 1)).length ≤ es.length - 1 := by
+    rw [List.length_take]; exact Nat.min_le_left _ _
+  have h3 : 0 < es.length := List.length_pos_iff.mpr hne
+  omega
+
 /-! ## 4. A non-nullable expression that succeeds consumes input -/
 
 /-- Positions only move forward, and strictly so when the expression is not nullable. -/
@@ -323,9 +380,11 @@ theorem Eval_adv {G : Grammar} {ρ : String → Nat → Bool} {inp N} (hcl : clo
     simp only [nullE, nullAny, Bool.or_eq_false_iff] at hn
     simp only [nullE, nullAny, Bool.or_eq_false_iff]
     exact hn.2
-  | ualt _ _ ih =>
+  | ualt hidx _ ih =>
     intro p1 f1 e
-    exact ⟨(ih p1 f1 e).1, fun hn => by simp [nullE] at hn⟩
+    refine ⟨(ih p1 f1 e).1, fun hn => (ih p1 f1 e).2 ?_⟩
+    simp only [nullE] at hn
+    exact nullAny_false hn _ (List.mem_of_getElem? hidx)
   | query_ok _ ih =>
     intro p1 f1 e
     exact ⟨(ih p1 f1 e).1, fun hn => by simp [nullE] at hn⟩
@@ -405,7 +464,7 @@ theorem isAct_cases (e : Expr) : (∃ c, e = .act c) ∨ e.isAct = false := by
 theorem total_aux {G : Grammar} {ρ : String → Nat → Bool} {inp N F} (hcl : closedB G N = true)
     (hall : ∀ n b, G.body n = some b → subsB G N F b = true) :
     ∀ k f e, wfF G N f e = true → subsB G N F e = true →
-      ∀ p, p ≤ inp.length → inp.length - p = k → Tot G ρ inp e p := by
+      ∀ p, inp.length - p = k → Tot G ρ inp e p := by
   intro k
   induction k using Nat.strongRecOn with
   | _ k IHk =>
@@ -413,10 +472,10 @@ theorem total_aux {G : Grammar} {ρ : String → Nat → Bool} {inp N F} (hcl : 
     induction f with
     | zero => intro e h; simp [wfF] at h
     | succ f IHf =>
-      intro e hw hs p hl hk
+      intro e hw hs p hk
       have later : ∀ e', wfF G N F e' = true → subsB G N F e' = true →
           ∀ p', p < p' → p' ≤ inp.length → Tot G ρ inp e' p' :=
-        fun e' h1 h2 p' hp hl' => IHk (inp.length - p') (by omega) F e' h1 h2 p' hl' rfl
+        fun e' h1 h2 p' hp hl' => IHk (inp.length - p') (by omega) F e' h1 h2 p' rfl
       cases e with
       | dot =>
         cases hc : inp[p]? with
@@ -445,12 +504,12 @@ theorem total_aux {G : Grammar} {ρ : String → Nat → Bool} {inp N F} (hcl : 
         | none => simp [hb] at hw
         | some b =>
           simp only [hb] at hw
-          obtain ⟨res, evs, he⟩ := IHf b hw (hall n b hb) p hl hk
+          obtain ⟨res, evs, he⟩ := IHf b hw (hall n b hb) p hk
           exact ⟨_, _, .name hb he⟩
       | inl n e =>
         simp only [wfF] at hw
         simp only [subsB, Bool.and_eq_true] at hs
-        obtain ⟨res, evs, he⟩ := IHf e hw hs.2 p hl hk
+        obtain ⟨res, evs, he⟩ := IHf e hw hs.2 p hk
         exact ⟨_, _, .inl he⟩
       | pred c =>
         cases hc : ρ c p with
@@ -465,21 +524,21 @@ theorem total_aux {G : Grammar} {ρ : String → Nat → Bool} {inp N F} (hcl : 
         | cons e es =>
           simp only [wfF, Bool.and_eq_true, Bool.or_eq_true, Bool.not_eq_true'] at hw
           simp only [subsB, subsL, Bool.and_eq_true] at hs
-          obtain ⟨res, evs, he⟩ := IHf e hw.1 hs.1.2 p hl hk
+          obtain ⟨res, evs, he⟩ := IHf e hw.1 hs.1.2 p hk
           cases res with
           | fail => exact ⟨_, _, .seq_fail he⟩
           | ok p1 f1 =>
-            have hb := Eval_le_len he hl _ _ rfl
+            have hb := Eval_pos he _ _ rfl
             have hrest : Tot G ρ inp (.seq es) p1 := by
               by_cases hpp : p1 = p
               · subst hpp
                 rcases hw.2 with hn | hw2
                 · have := Eval_consumes hcl he hn; omega
-                · exact IHf (.seq es) hw2 (by simpa [subsB] using hs.2) p1 hl hk
+                · exact IHf (.seq es) hw2 (by simpa [subsB] using hs.2) p1 hk
               · exact seq_total (p0 := p + 1)
                   (fun e' he' p' hp' hl' =>
                     later e' (subsL_mem hs.2 e' he').1 (subsL_mem hs.2 e' he').2 p' (by omega) hl')
-                  p1 (by omega) hb.2
+                  p1 (by omega) (hb.2 (by omega))
             obtain ⟨res2, evs2, h2⟩ := hrest
             cases res2 with
             | fail => exact ⟨_, _, .seq_ok_fail he h2⟩
@@ -492,7 +551,7 @@ theorem total_aux {G : Grammar} {ρ : String → Nat → Bool} {inp N F} (hcl : 
           | nil =>
             simp only [wfF] at hw
             simp only [subsB, subsL, Bool.and_eq_true] at hs
-            obtain ⟨res, evs, he⟩ := IHf e hw hs.1.2 p hl hk
+            obtain ⟨res, evs, he⟩ := IHf e hw hs.1.2 p hk
             exact ⟨_, _, .alt_last he⟩
           | cons e' es =>
             simp only [wfF, Bool.and_eq_true] at hw
@@ -500,67 +559,76 @@ theorem total_aux {G : Grammar} {ρ : String → Nat → Bool} {inp N F} (hcl : 
             simp only [subsB] at hs'
             rw [subsL] at hs'
             simp only [Bool.and_eq_true] at hs'
-            obtain ⟨res, evs, he⟩ := IHf e hw.1 hs'.1.2 p hl hk
+            obtain ⟨res, evs, he⟩ := IHf e hw.1 hs'.1.2 p hk
             cases res with
             | ok p1 f1 => exact ⟨_, _, .alt_ok he⟩
             | fail =>
               obtain ⟨res2, evs2, h2⟩ :=
-                IHf (.alt (e' :: es)) hw.2 (by simpa [subsB] using hs'.2) p hl hk
+                IHf (.alt (e' :: es)) hw.2 (by simpa [subsB] using hs'.2) p hk
               exact ⟨_, _, .alt_next he h2⟩
-      | ualt ks es => simp [wfF] at hw
+      | ualt ks es =>
+        simp only [wfF, Bool.and_eq_true, Bool.not_eq_true', List.isEmpty_eq_false_iff,
+          List.all_eq_true] at hw
+        simp only [subsB] at hs
+        have hlt := ualt_case_lt ks hw.1 (peek inp p)
+        have hidx : es[caseIdx (ks.take (es.length - 1)) (peek inp p)]? =
+            some es[caseIdx (ks.take (es.length - 1)) (peek inp p)] := List.getElem?_eq_getElem hlt
+        have hm := List.getElem_mem hlt
+        obtain ⟨res, evs, he⟩ := IHf _ (hw.2 _ hm) (subsL_mem hs _ hm).2 p hk
+        exact ⟨_, _, .ualt hidx he⟩
       | peekFor e =>
         simp only [wfF] at hw
         simp only [subsB, Bool.and_eq_true] at hs
-        obtain ⟨res, evs, he⟩ := IHf e hw hs.2 p hl hk
+        obtain ⟨res, evs, he⟩ := IHf e hw hs.2 p hk
         cases res with
         | ok p1 f1 => exact ⟨_, _, .peekFor_ok he⟩
         | fail => exact ⟨_, _, .peekFor_fail he⟩
       | peekNot e =>
         simp only [wfF] at hw
         simp only [subsB, Bool.and_eq_true] at hs
-        obtain ⟨res, evs, he⟩ := IHf e hw hs.2 p hl hk
+        obtain ⟨res, evs, he⟩ := IHf e hw hs.2 p hk
         cases res with
         | ok p1 f1 => exact ⟨_, _, .peekNot_fail he⟩
         | fail => exact ⟨_, _, .peekNot_ok he⟩
       | query e =>
         simp only [wfF] at hw
         simp only [subsB, Bool.and_eq_true] at hs
-        obtain ⟨res, evs, he⟩ := IHf e hw hs.2 p hl hk
+        obtain ⟨res, evs, he⟩ := IHf e hw hs.2 p hk
         cases res with
         | ok p1 f1 => exact ⟨_, _, .query_ok he⟩
         | fail => exact ⟨_, _, .query_none he⟩
       | star e =>
         simp only [wfF, Bool.and_eq_true, Bool.not_eq_true'] at hw
         simp only [subsB, Bool.and_eq_true] at hs
-        obtain ⟨res, evs, he⟩ := IHf e hw.2 hs.2 p hl hk
+        obtain ⟨res, evs, he⟩ := IHf e hw.2 hs.2 p hk
         cases res with
         | fail => exact ⟨_, _, .star_stop he⟩
         | ok p1 f1 =>
-          have hb := Eval_le_len he hl _ _ rfl
+          have hb := Eval_pos he _ _ rfl
           have hc := Eval_consumes hcl he hw.1
           obtain ⟨p2, f2, evs2, h2⟩ := star_total hcl hw.1 (p0 := p + 1)
             (fun p' hp' hl' => later e hs.1 hs.2 p' (by omega) hl')
-            (inp.length - p1) p1 rfl (by omega) hb.2
+            (inp.length - p1) p1 rfl (by omega) (hb.2 hc)
           exact ⟨_, _, .star_step he h2⟩
       | plus e =>
         simp only [wfF, Bool.and_eq_true, Bool.not_eq_true'] at hw
         simp only [subsB, Bool.and_eq_true] at hs
-        obtain ⟨res, evs, he⟩ := IHf e hw.2 hs.2 p hl hk
+        obtain ⟨res, evs, he⟩ := IHf e hw.2 hs.2 p hk
         cases res with
         | fail => exact ⟨_, _, .plus_fail he⟩
         | ok p1 f1 =>
-          have hb := Eval_le_len he hl _ _ rfl
+          have hb := Eval_pos he _ _ rfl
           have hc := Eval_consumes hcl he hw.1
           obtain ⟨p2, f2, evs2, h2⟩ := star_total hcl hw.1 (p0 := p + 1)
             (fun p' hp' hl' => later e hs.1 hs.2 p' (by omega) hl')
-            (inp.length - p1) p1 rfl (by omega) hb.2
+            (inp.length - p1) p1 rfl (by omega) (hb.2 hc)
           exact ⟨_, _, .plus_ok he h2⟩
       | push e r =>
         simp only [wfF] at hw
         simp only [subsB, Bool.and_eq_true] at hs
         rcases isAct_cases e with ⟨c, rfl⟩ | hna
         · exact ⟨_, _, .push_act⟩
-        · obtain ⟨res, evs, he⟩ := IHf e hw hs.2 p hl hk
+        · obtain ⟨res, evs, he⟩ := IHf e hw hs.2 p hk
           cases res with
           | ok p1 f1 => exact ⟨_, _, .push_ok hna he⟩
           | fail => exact ⟨_, _, .push_fail hna he⟩
@@ -569,7 +637,7 @@ theorem total_aux {G : Grammar} {ρ : String → Nat → Bool} {inp N F} (hcl : 
         simp only [subsB, Bool.and_eq_true] at hs
         rcases isAct_cases e with ⟨c, rfl⟩ | hna
         · exact ⟨_, _, .ipush_act⟩
-        · obtain ⟨res, evs, he⟩ := IHf e hw hs.2 p hl hk
+        · obtain ⟨res, evs, he⟩ := IHf e hw hs.2 p hk
           cases res with
           | ok p1 f1 => exact ⟨_, _, .ipush_ok hna he⟩
           | fail => exact ⟨_, _, .ipush_fail hna he⟩
@@ -592,6 +660,7 @@ theorem WFE_child {G : Grammar} {e e' : Expr} (h : WFE G e) (hc : Child e' e) : 
   cases hc with
   | seq hm => simp only [subsB] at hs; exact subsL_mem hs _ hm
   | alt hm => simp only [subsB] at hs; exact subsL_mem hs _ hm
+  | ualt hm => simp only [subsB] at hs; exact subsL_mem hs _ hm
   | _ => simpa [subsB, WFE] using hs
 
 theorem WFE_inGrammar {G : Grammar} (hwf : WFB G = true) {e : Expr} (h : InGrammar G e) :
@@ -605,9 +674,18 @@ theorem WFE_inGrammar {G : Grammar} (hwf : WFB G = true) {e : Expr} (h : InGramm
 theorem Eval_total_expr {G : Grammar} {ρ : String → Nat → Bool} (hwf : WFB G = true)
     {e : Expr} (he : WFE G e) :
     ∀ (inp : List Sym) (p : Nat), p ≤ inp.length → ∃ res evs, Eval G ρ inp e p res evs :=
-  fun inp p hl =>
+  fun inp p _ =>
     total_aux (WFB_closed hwf) (fun _ _ hb => (WFB_body hwf hb).2)
-      (inp.length - p) (wfFuel G) e he.1 he.2 p hl rfl
+      (inp.length - p) (wfFuel G) e he.1 he.2 p rfl
+
+/-- Totality without the assumption that the position is inside the input (beyond the end every
+    terminal fails). -/
+theorem Eval_total_expr' {G : Grammar} {ρ : String → Nat → Bool} (hwf : WFB G = true)
+    {e : Expr} (he : WFE G e) :
+    ∀ (inp : List Sym) (p : Nat), ∃ res evs, Eval G ρ inp e p res evs :=
+  fun inp p =>
+    total_aux (WFB_closed hwf) (fun _ _ hb => (WFB_body hwf hb).2)
+      (inp.length - p) (wfFuel G) e he.1 he.2 p rfl
 
 /-- Totality for every sub-expression occurring in a rule body. -/
 theorem Eval_total_inGrammar {G : Grammar} {ρ : String → Nat → Bool} (hwf : WFB G = true)
@@ -622,6 +700,13 @@ theorem Eval_total {G : Grammar} {ρ : String → Nat → Bool} (hwf : WFB G = t
       ∀ p, p ≤ inp.length → ∃ res evs, Eval G ρ inp (.name n) p res evs := by
   intro inp n b hb p hl
   obtain ⟨res, evs, he⟩ := Eval_total_expr (ρ := ρ) hwf (WFB_body hwf hb) inp p hl
+  exact ⟨res, evs, .name hb he⟩
+
+theorem Eval_total' {G : Grammar} {ρ : String → Nat → Bool} (hwf : WFB G = true) :
+    ∀ (inp : List Sym) (n : String) (b : Expr), G.body n = some b →
+      ∀ p, ∃ res evs, Eval G ρ inp (.name n) p res evs := by
+  intro inp n b hb p
+  obtain ⟨res, evs, he⟩ := Eval_total_expr' (ρ := ρ) hwf (WFB_body hwf hb) inp p
   exact ⟨res, evs, .name hb he⟩
 
 /-- With determinism: the outcome exists and is unique. -/
@@ -672,6 +757,17 @@ def rrG : Grammar := { rules := [
 
 example : WFB rrG = true := by decide
 example : nullSet rrG = ["S", "T"] := by decide
+
+/-- A `-switch` node: `S <- switch { 'a': 'a' 'x'; default: 'b' } !.`; the empty one is rejected. -/
+def swG : Grammar := { rules := [
+  { name := "S", id := 0,
+    body := .seq [.ualt [[(97, 97)], []] [.seq [.chr 97, .chr 120], .chr 98], .peekNot .dot] }] }
+
+example : WFB swG = true := by decide
+example : WFB { rules := [{ name := "S", id := 0, body := .ualt [] [] }] } = false := by decide
+/-- … and a left recursion through a case is still found. -/
+example : WFB { rules := [{ name := "S", id := 0, body := .ualt [[(97, 97)], []] [.chr 97, .name "S"] }] }
+    = false := by decide
 
 example : ∀ inp p, p ≤ inp.length → ∃ res evs, Eval totG (fun _ _ => true) inp (.name "S") p res evs :=
   fun inp p => Eval_total (by decide) inp "S" _ rfl p
